@@ -239,3 +239,76 @@ func c19R3(c *Ctx, rule string, onlyField string) {
 		r.Undecided(rule, "acceptDataChannels|pointer-parameters", c.P.Pos(lit.Pos()), "no pointer-valued parameter found in the literal")
 	}
 }
+
+// c19R4: "a channel created in-band appears on the remote peer" needs every locally opened channel to own its SCTP
+// stream: two channels sharing a stream id collapse into one on the remote side (the second OPEN is discarded). The
+// stream id allocator must therefore find a free id and reserve it in ONE write-locked critical section: in
+// generateAndSetDataChannelID every read of dataChannelIDsUsed and the insert share a critical section of the
+// transport's lock held for writing. (The full allocator argument - parity, bound, same key - is C18.R1/R2.)
+func c19R4(c *Ctx) {
+	r := c.R
+	const rule = "C19.R4"
+	gen := c.mustFunc(rule, "", "SCTPTransport.generateAndSetDataChannelID")
+	used := c.mustField(rule, "", "SCTPTransport", "dataChannelIDsUsed")
+	if gen == nil || used == nil {
+		return
+	}
+	g := c.P.GraphOf(gen)
+	info := g.Info
+	var reads, writes []int
+	for _, n := range g.Nodes {
+		if n.Ast == nil {
+			continue
+		}
+		isW := false
+		if as, ok := n.Ast.(*ast.AssignStmt); ok {
+			for _, l := range as.Lhs {
+				if ix, ok := ast.Unparen(l).(*ast.IndexExpr); ok && core.FieldOf(info, ix.X) == used {
+					isW = true
+				}
+			}
+		}
+		if isW {
+			writes = append(writes, n.ID)
+			continue
+		}
+		hit := false
+		core.InspectShallow(n.Ast, func(x ast.Node) bool {
+			if ix, ok := x.(*ast.IndexExpr); ok && core.FieldOf(info, ix.X) == used {
+				hit = true
+			}
+			return true
+		})
+		if hit {
+			reads = append(reads, n.ID)
+		}
+	}
+	key := "generateAndSetDataChannelID|find-and-reserve-atomic"
+	pos := c.P.Pos(gen.Decl.Pos())
+	if len(reads) == 0 || len(writes) == 0 {
+		r.Undecided(rule, key, pos, sprintf("expected a look-up and an insert of dataChannelIDsUsed in the allocator's own body, found %d / %d", len(reads), len(writes)))
+		return
+	}
+	li := core.Locks(g)
+	bad := ""
+	for _, w := range writes {
+		inst := ""
+		for in, mode := range li.In[w] {
+			if li.ClassOf[in] == "SCTPTransport.lock" && mode == "W" {
+				inst = in
+			}
+		}
+		if inst == "" {
+			bad = "the insert does not hold the transport's lock for writing"
+			continue
+		}
+		for _, rd := range reads {
+			if ok, why := c24SameRegion(g, li, rd, w, inst); !ok {
+				bad = "the free-id look-up at " + c.P.Pos(g.PosOf(rd)) + " and the reservation at " + c.P.Pos(g.PosOf(w)) + " are not in one critical section (" + why + ")"
+			}
+		}
+	}
+	r.Cells++
+	r.Check(bad == "", rule, key, c.P.Pos(g.PosOf(writes[0])), "the free id is found and reserved in one write-locked critical section",
+		bad+": two concurrent opens can pick the same stream id, the remote peer then sees one channel instead of two and the second in-band channel never appears")
+}
